@@ -284,8 +284,9 @@ def rule_handoff(ctx, M, u):
                         swapped = base if swapped is None else swapped
                         if base != swapped:
                             probs.append("result mixes different output tuples")
-                swaps = [s for s in bi.sites if s.key == ("core::mem::swap", "swap") and scan.self_field("outputs") in (s.arg(0), s.arg(1))]
-                if len(swaps) != 1 or not bi.body.blocks_dominate([swaps[0].block], rb):
+                from . import flow as _flow
+                swaps = _flow.takes_of(bi, scan.self_field("outputs"))
+                if len(swaps) != 1 or not bi.body.blocks_dominate([swaps[0].block], rb) or (swapped is not None and swaps[0].taken != swapped):
                     probs.append("outputs are not swapped out exactly once before the result is built")
             if not resets or not any(bi.body.blocks_dominate([r], rb) for r in resets):
                 probs.append("slot states are not reset (set_all_none) before returning the outputs")
@@ -393,7 +394,8 @@ def rule_zip(ctx, M, u):
             ed = bi.edge(e, True)
             if ed:
                 te.append(ed)
-    takes = [s for s in bi.sites if s.key in (("core::mem::swap", "swap"),) and scan.self_field("output") in (s.arg(0), s.arg(1))]
+    from . import flow as _flow
+    takes = _flow.takes_of(bi, scan.self_field("output"))
     resets = [b for b, v, w in scan.state_set_all(bi) if v == "Pending"]
     for c in u.cps:
         header, exits = common.loop_exits(bi, c.block)
@@ -467,19 +469,7 @@ def rule_zip(ctx, M, u):
                 ok = always_reached(di, [s.block for s, idx, base in scan.state_tests(di, "is_ready") if scan.const_of(idx) == k])
             ctx.check(ok, "C02.ZIP", m.drop.def_, "slot %d: buffered item dropped iff Ready" % k, site=m.drop.span)
     else:
-        ok = len(ods) == 1
-        if ok:
-            s = ods[0]
-            tests = [(t, idx, base) for t, idx, base in scan.state_tests(di, "is_ready")]
-            ok = False
-            for t, idx, base in tests:
-                r1 = scan.loop_item_root(t.arg(0))
-                r2 = scan.loop_item_root(s.arg(0))
-                if r1 is not None and r1 == r2:
-                    re = di.outcome_edges(t, True)
-                    it = r1[2][0]
-                    full = it[0] == "call" and it[1][1] == "zip" and it[2][0][0] == "call" and it[2][0][1][1] == "iter_mut" and it[2][1][0] == "call" and it[2][1][1][1] == "iter_mut"
-                    ok = bool(re) and di.guarded_by(s.block, re) and full and always_reached(di, [r1[3]])
+        ok = destructor_filter_ready(M, m)
         ctx.check(ok, "C02.ZIP", m.drop.def_, "buffered items dropped exactly for Ready slots (zipped state/output loop)", site=m.drop.span)
 
 
@@ -511,7 +501,8 @@ def rule_raceok(ctx, M, u):
         else:
             ctx.ok("C02.RACEOK", u.where, "%s: Err => slot write < state:=Ready, counter+1" % c.label)
     # aggregate
-    takes = [s for s in bi.sites if s.key == ("core::mem::swap", "swap") and scan.self_field("errors") in (s.arg(0), s.arg(1))]
+    from . import flow as _flow
+    takes = _flow.takes_of(bi, scan.self_field("errors"))
     resets = [b for b, v, w in scan.state_set_all(bi) if v == "None"]
     probs = []
     if len(takes) != 1:
@@ -519,22 +510,9 @@ def rule_raceok(ctx, M, u):
     if not resets:
         probs.append("error states are not reset when the aggregate is taken")
     if takes and resets:
-        # both only under completed == N
-        guards = []
-        for e in bi.switches:
-            s = e["subject"]
-            if e["kind"] == "bool" and s[0] == "binop" and s[1] == "Eq" and scan.self_field("completed") in (s[2], s[3]):
-                ed = bi.edge(e, True)
-                if ed:
-                    guards.append(ed)
-            if e["kind"] == "bool" and s[0] == "phi":
-                # `let all_completed = completed == N; if all_completed`
-                for d in bi.body.defs.get(s[1], []):
-                    t = bi.T._of_def(s[1], d, 1)
-                    if t[0] == "binop" and t[1] == "Eq" and scan.self_field("completed") in (t[2], t[3]):
-                        ed = bi.edge(e, True)
-                        if ed:
-                            guards.append(ed)
+        # both only under completed == N (any comparison shape: ==, !=, negated, through a bool local)
+        from . import flow
+        guards = flow.edges_where(bi, scan.self_field("completed"), "Eq", lambda t: True)
         if not guards or not bi.guarded_by(takes[0].block, guards) or not all(bi.guarded_by(b, guards) for b in resets):
             probs.append("aggregate taken / states reset without the all-failed test")
         else:
@@ -551,9 +529,6 @@ def rule_raceok(ctx, M, u):
         ctx.fail("C02.RACEOK", u.where, "race_ok has no destructor for stored errors", site=u.body.span)
         return
     ok = destructor_filter_ready(M, m)
-    if ok:
-        di_ = m.drop_info
-        ok = always_reached(di_, [s.block for s in di_.sites if s.callee.name == "filter"][:1])
     ctx.check(ok, "C02.RACEOK", m.drop.def_, "stored errors dropped exactly for Ready slots, on every path through the destructor", site=m.drop.span)
 
 
@@ -595,42 +570,132 @@ def always_reached(bi, blocks):
     return not any(x in r for x in bi.return_blocks)
 
 
+def _strip(t):
+    """strip field/variant projections down to the root term"""
+    while t is not None and t[0] in ("field", "variant", "index"):
+        t = t[1]
+    return t
+
+
+def _comp_index(t, root):
+    """t is `root.<k>` possibly wrapped in further transparent projections: return k"""
+    path = []
+    while t is not None and t != root and t[0] in ("field", "variant", "index"):
+        path.append(t)
+        t = t[1]
+    if t != root or not path:
+        return None
+    first = path[-1]
+    return first[2] if first[0] == "field" else None
+
+
+def _zip_of_fields(it):
+    """it = zip(iter*(self.A), iter*(self.B)) -> (A path term, B path term) else None"""
+    if it is None or it[0] != "call" or it[1][1] != "zip" or len(it[2]) != 2:
+        return None
+    out = []
+    for x in it[2]:
+        if x[0] == "call" and x[1][1] in ("iter", "iter_mut") and x[2] and self_path(x[2][0]) is not None:
+            out.append(x[2][0])
+        else:
+            return None
+    return tuple(out)
+
+
+def _is_state_field(M, m, t):
+    sp = self_path(t)
+    if not sp:
+        return False
+    idx, ty = families.adt_field(M, m.adt, sp[0])
+    return ty is not None and ("PollArray" in M.F.types[ty]["s"] or "PollVec" in M.F.types[ty]["s"] or "PollState" in M.F.types[ty]["s"])
+
+
 def destructor_filter_ready(M, m):
+    """The destructor drops, for every position, the stored slot iff the slot's state is Ready.
+    Accepted forms (all over `state.iter*().zip(slots.iter_mut())`, either operand order):
+      A  `.filter(|(st, _)| st.is_ready())` then a `for` loop / `.for_each(..)` calling assume_init_drop on the slot component;
+      B  a plain `for (st, slot) in zip` whose body drops the slot under `if st.is_ready()` (also the `if !.. { continue }` form).
+    In every form the iteration is reached on every path through the destructor."""
     di = m.drop_info
-    filt = [s for s in di.sites if s.callee.name == "filter"]
-    if not filt:
-        return False
-    f = filt[0]
-    it = f.arg(0)
-    full = it[0] == "call" and it[1][1] == "zip" and all(x[0] == "call" and x[1][1] == "iter_mut" for x in it[2])
-    if not full:
-        return False
-    cl = f.arg(1)
-    if not (cl[0] == "agg" and cl[1][0] == "closure"):
-        return False
-    cb = M.by_cdef.get(cl[1][1])
-    if cb is None:
-        return False
-    # filter closure returns is_ready(state component)
-    ok_pred = False
-    for s in M.info(cb).sites:
-        if s.callee.key == ("PollState", "is_ready"):
-            ok_pred = True
-    if not ok_pred:
-        return False
-    # body: either a loop over Filter::next or a for_each closure
-    drops = [s for s in di.sites if s.key == ("MaybeUninit", "assume_init_drop")]
-    if drops:
-        r = scan.loop_item_root(drops[0].arg(0))
-        return r is not None and r[2] and r[2][0] == f.term or (r is not None and r[2] and r[2][0][0] == "call" and r[2][0][3] == f.block)
-    fe = [s for s in di.sites if s.callee.name == "for_each"]
-    if fe:
-        src = fe[0].arg(0)
-        cl2 = fe[0].arg(1)
-        if src[0] == "call" and src[3] == f.block and cl2[0] == "agg" and cl2[1][0] == "closure":
-            cb2 = M.by_cdef.get(cl2[1][1])
-            if cb2 is not None:
-                return any(s.key == ("MaybeUninit", "assume_init_drop") for s in M.info(cb2).sites)
+    body = di.body
+    DROP = ("MaybeUninit", "assume_init_drop")
+    # ---------------------------------------------------------------- form A
+    for f in [s for s in di.sites if s.callee.name == "filter"]:
+        z = _zip_of_fields(f.arg(0))
+        cl = f.arg(1)
+        if z is None or not (cl[0] == "agg" and cl[1][0] == "closure"):
+            continue
+        st_pos = [k for k, x in enumerate(z) if _is_state_field(M, m, x)]
+        if len(st_pos) != 1:
+            continue
+        st_pos = st_pos[0]
+        cb = M.by_cdef.get(cl[1][1])
+        if cb is None:
+            continue
+        ci = M.info(cb)
+        preds = [s for s in ci.sites if s.callee.key == ("PollState", "is_ready")]
+        rets = [t for b_, i_, rv in ci.assigns_to_return() for t in [ci.T.of_rvalue(rv, 0) if rv.get("k") != "callresult" else ci.T.of_call(b_, cb.term(b_), 0)]]
+        if len(preds) != 1 or _comp_index(preds[0].arg(0), ("param", 2)) != st_pos:
+            continue
+        if not rets or not all(t[0] == "call" and t[3] == preds[0].block for t in rets):
+            continue
+        if not always_reached(di, [f.block]):
+            continue
+        # consumer of the filtered iterator
+        for s in di.sites:
+            if s.key == DROP:
+                r = scan.loop_item_root(s.arg(0))
+                if r is not None and r[2] and r[2][0][0] == "call" and r[2][0][3] == f.block:
+                    item = ("field", ("variant", r, "Some"), 0)
+                    if _comp_index(s.arg(0), item) == 1 - st_pos:
+                        nxt = di.by_block.get(r[3])
+                        se = di.outcome_edges(nxt, "Some") if nxt else []
+                        lp = body.innermost_loop(s.block)
+                        if se and lp:
+                            ok, _ = di.must_reach([t for _, t in se], [s.block], [lp[0]] + list(di.return_blocks))
+                            if ok:
+                                return True
+        for fe in [s for s in di.sites if s.callee.name == "for_each"]:
+            src, cl2 = fe.arg(0), fe.arg(1)
+            if src[0] == "call" and src[3] == f.block and cl2[0] == "agg" and cl2[1][0] == "closure":
+                cb2 = M.by_cdef.get(cl2[1][1])
+                if cb2 is not None:
+                    c2 = M.info(cb2)
+                    ds = [s for s in c2.sites if s.key == DROP]
+                    if len(ds) == 1 and _comp_index(ds[0].arg(0), ("param", 2)) == 1 - st_pos and always_reached(c2, [ds[0].block]):
+                        return True
+    # ---------------------------------------------------------------- form B
+    for s in di.sites:
+        if s.key != DROP:
+            continue
+        r = scan.loop_item_root(s.arg(0))
+        if r is None or not r[2]:
+            continue
+        z = _zip_of_fields(r[2][0])
+        if z is None:
+            continue
+        st_pos = [k for k, x in enumerate(z) if _is_state_field(M, m, x)]
+        if len(st_pos) != 1:
+            continue
+        st_pos = st_pos[0]
+        item = ("field", ("variant", r, "Some"), 0)
+        if _comp_index(s.arg(0), item) != 1 - st_pos:
+            continue
+        nxt = di.by_block.get(r[3])
+        lp = body.innermost_loop(s.block)
+        if nxt is None or lp is None or not always_reached(di, [nxt.block]):
+            continue
+        for t, idx, base in scan.state_tests(di, "is_ready"):
+            if _comp_index(t.arg(0), item) == st_pos:
+                te = di.outcome_edges(t, True)
+                fe_ = di.outcome_edges(t, False)
+                se = di.outcome_edges(nxt, "Some")
+                if not te or not se or not di.guarded_by(s.block, te):
+                    continue
+                ok1, _ = di.must_reach([x for _, x in te], [s.block], [lp[0]] + list(di.return_blocks))
+                ok2, _ = di.must_reach([x for _, x in se], [t.block], [lp[0]] + list(di.return_blocks))
+                if ok1 and ok2:
+                    return True
     return False
 
 
